@@ -361,4 +361,67 @@ theorem euclid_triangle (a b c : List R) (h1 : a.length = b.length) (h2 : b.leng
 
 example : 0 < dot (R := Rat) [3, 4] [3, 4] := by decide +kernel
 
+/-! ## exact core, purity, NaN rows -/
+
+/-- KS is `exp` of the exactly-computable argument `ksArg` (what the driver evaluates at `Rat` on the
+exact dyadic inputs), or 0 when either keypoint is missing -/
+theorem ks_eq_ksArg (exp : R → R) (coco : Bool) (eps s : R) (n : Node R) :
+    ks exp coco eps s n = match ksArg coco eps s n with
+      | some x => exp x
+      | none => 0 := by
+  unfold ks ksArg
+  cases vis n.g <;> cases vis n.p <;> rfl
+
+/-- the argument of `exp` is never positive, and depends on the two poses only through their
+difference: translating both by the same vector leaves it unchanged (no absolute coordinate enters) -/
+theorem ksArg_nonpos_and_translation (coco : Bool) {eps s : R} (he : 0 < eps) (hs : 0 ≤ s) (n : Node R)
+    (hsd : 0 < n.sd) (t : R × R) :
+    (∀ x, ksArg coco eps s n = some x → x ≤ 0) ∧
+    ksArg coco eps s ⟨n.sd, shiftPt t n.g, shiftPt t n.p⟩ = ksArg coco eps s n := by
+  constructor
+  · intro x hx
+    unfold ksArg at hx
+    cases hg : vis n.g with
+    | none => rw [hg] at hx; simp at hx
+    | some g =>
+      cases hp : vis n.p with
+      | none => rw [hg, hp] at hx; simp at hx
+      | some p =>
+        rw [hg, hp] at hx
+        have := div_nonneg (d2_nonneg g p) (normFactor_pos coco he hsd hs).le
+        have e := Option.some.inj hx
+        linarith
+  · unfold ksArg
+    simp only [vis_shift]
+    cases vis n.g <;> cases vis n.p <;> simp [d2_shift]
+
+/-- **`compute_oks` is a pure function of its arguments**: in any history of calls the `k`-th result
+is the function of the `k`-th arguments alone (no call can influence a later one, in particular not
+by modifying the caller's `stddev`/`scale`/point arrays).  Trivial for the model; the correspondence
+re-checks it on the implementation with call histories that reuse the same argument objects. -/
+theorem oks_pure (exp : R → R) (eps : R)
+    (calls : List (Bool × List R × List (Option R × List (Pt R)) × List (List (Pt R)))) (k : Nat)
+    (hk : k < calls.length) :
+    (oksHistory exp eps calls)[k]? =
+      some (oksMatrix exp calls[k].1 eps calls[k].2.1 calls[k].2.2.1 calls[k].2.2.2) := by
+  simp [oksHistory, hk]
+
+/-- a ground-truth instance whose OKS is NaN against every prediction (an *empty* user instance: all
+keypoints NaN, `0/0`) is never matched and is reported as a false negative -/
+theorem match_nan_row_is_false_negative {S : Type} [LT S] [DecidableLT S] {G P : Type}
+    (oks : G → P → Option S) (score : P → S) (thr : S) (gts : List G) (prs : List P) (g : G)
+    (hg : g ∈ gts) (hnan : ∀ p, oks g p = none) :
+    g ∈ (matchInstances oks score thr gts prs).2 ∧
+    ∀ x ∈ (matchInstances oks score thr gts prs).1, x.1 ≠ g := by
+  have hnot : ∀ x ∈ (matchInstances oks score thr gts prs).1, x.1 ≠ g := by
+    rintro ⟨g', p, v⟩ hx rfl
+    have := (match_pairs_sound oks score thr gts prs _ p v hx).1
+    rw [hnan p] at this; cases this
+  refine ⟨?_, hnot⟩
+  have hmem := (match_conservation oks score thr gts prs).mem_iff.mpr hg
+  rcases List.mem_append.mp hmem with h | h
+  · obtain ⟨x, hx, rfl⟩ := List.mem_map.mp h
+    exact absurd rfl (hnot x hx)
+  · exact h
+
 end SleapVerif.C15
